@@ -54,25 +54,36 @@ where
     loop {
         let mut buf = [0];
         r.read_exact(&mut buf)?;
-        if shift == 127 && buf[0] != 0x00 && buf[0] != 0x01 {
+        let low_bits = (buf[0] & !CONTINUATION_BIT) as u128;
+        // Groups are 7 bits wide, so `shift` is a multiple of 7: the 19th group (shift 126)
+        // has room for two more bits, any later group must be zero padding.
+        let overflow = if shift < 126 {
+            false
+        } else if shift == 126 {
+            low_bits > 0x03
+        } else {
+            low_bits != 0
+        };
+        if overflow {
             while buf[0] & CONTINUATION_BIT != 0 {
                 r.read_exact(&mut buf)?;
             }
             return Err(Error::msg("nat overflow"));
         }
-        let low_bits = (buf[0] & !CONTINUATION_BIT) as u128;
-        result |= low_bits << shift;
+        if shift <= 126 {
+            result |= low_bits << shift;
+            shift += 7;
+        }
         if buf[0] & CONTINUATION_BIT == 0 {
             return Ok(result);
         }
-        shift += 7;
     }
 }
 pub fn decode_int<R>(r: &mut R) -> Result<i128>
 where
     R: io::Read + ?Sized,
 {
-    let mut result = 0;
+    let mut result: i128 = 0;
     let mut shift = 0;
     let size = 128;
     let mut byte;
@@ -80,15 +91,30 @@ where
         let mut buf = [0];
         r.read_exact(&mut buf)?;
         byte = buf[0];
-        if shift == 127 && byte != 0x00 && byte != 0x7f {
+        let low_bits = (byte & !CONTINUATION_BIT) as i128;
+        // Groups are 7 bits wide, so `shift` is a multiple of 7: the 19th group (shift 126)
+        // carries the last two bits, its other five bits must repeat the sign bit; any later
+        // group must be pure sign extension.
+        let overflow = if shift < 126 {
+            false
+        } else if shift == 126 {
+            let ext = low_bits >> 1;
+            ext != 0x00 && ext != 0x3f
+        } else if result < 0 {
+            low_bits != 0x7f
+        } else {
+            low_bits != 0x00
+        };
+        if overflow {
             while buf[0] & CONTINUATION_BIT != 0 {
                 r.read_exact(&mut buf)?;
             }
             return Err(Error::msg("int overflow"));
         }
-        let low_bits = (byte & !CONTINUATION_BIT) as i128;
-        result |= low_bits << shift;
-        shift += 7;
+        if shift <= 126 {
+            result |= low_bits << shift;
+            shift += 7;
+        }
         if byte & CONTINUATION_BIT == 0 {
             break;
         }
